@@ -34,6 +34,9 @@ macro_rules! sweep16 {
                 let $v = x as u16;
                 let (good, input): (bool, Vec<u8>) = $body;
                 probe(ctx, $field, x as u32, good, &input);
+                if x % 1024 == 513 && ctx.wants_sample() {
+                    ctx.sample(json!({"field": $field, "value": x, "input_hex": hex_short(&input), "preserved": good}));
+                }
             }
             ctx.evals(1024);
             ctx.add(concat!("swept.", $field), 1024);
@@ -50,6 +53,9 @@ macro_rules! sweep8 {
                 let $v = x as u8;
                 let (good, input): (bool, Vec<u8>) = $body;
                 probe(ctx, $field, x as u32, good, &input);
+                if x % 64 == 37 && ctx.wants_sample() {
+                    ctx.sample(json!({"field": $field, "value": x, "input_hex": hex_short(&input), "preserved": good}));
+                }
             }
             ctx.evals(64);
             ctx.add(concat!("swept.", $field), 64);
